@@ -687,7 +687,10 @@ def run_frf_case(sh, srs, g):
     else:
         srs_frq = frf_frq if mode == "qonly-none" else frf_frq / p_peak
         arg = None
-    if g % 6 == 5:
+    if g % 6 == 5 and nfrq >= 2:
+        # (a single FRF line is left on the ordinary scale: where it lands on the merged
+        # frequency grid depends on srs_frf's absolute 1e-5 Hz de-duplication, an
+        # implementation detail the closed form does not define)
         # the same request on a very slow time scale (oscillators of 0.0003 .. 0.3 Hz):
         # the closed form has no absolute frequency in it
         fscale = float(10.0 ** -r.uniform(2.3, 3.5))
